@@ -33,12 +33,13 @@ ASSUMPTIONS = [
     "no contracts are installed in this check (they would add shared monitor state)",
 ]
 CHILD = os.path.join(env.VERIF, "vmon", "c17_child.py")
+CLONE_KINDS = ("hist",)  # interpreter-configuration clones: one history shard per configuration
 
 
 def required(tier):
     return ["history:after_failure", "history:repeat_same_text", "history:after_other_resolution", "threads:switches_inside_chartparse>=100",
             "threads:2", "threads:16", "baseline:valid", "baseline:failing", "selection_cases", "read_by_path_cases", "history:late_failure_then_sibling_with_other_tempi", "history:more_than_100000_skipped_lines_in_one_process",
-            "history:more_than_2000_text_events_in_one_process", "history:parsed_inside_the_except_handler_of_a_failed_parse", "history:earlier_chart_asked_again_after_later_parses",
+            "history:more_than_2000_text_events_in_one_process", "history:parsed_inside_the_except_handler_of_a_failed_parse", "history:earlier_chart_asked_again_after_later_parses", "history:equal_looking_events_under_other_tempo_maps",
             "cold_start:first_parses_of_the_process_were_concurrent"]
 
 
@@ -231,6 +232,19 @@ def corpus(rng, n):
                              ("ExpertSingle", ["  0 = N 0 0"] + shared_n), ("HardSingle", shared_n[1:3])])
     texts.append({"text": x, "want": None, "res": 192, "kind": "failing:track"})
     texts.append({"text": y, "want": None, "res": 192, "kind": "valid"})
+    # two charts that agree on an event in everything an event SHOWS (kind, tick, time, payload) while reaching it through different
+    # numbers of tempo changes: 384 ticks at 60 BPM + 384 at 120 BPM = 768 ticks at 80 BPM = 3 s exactly (and 960 / 1152 ticks agree too
+    # via 80 -> 160 BPM) — whatever is kept per "equal" event across charts answers for the wrong tempo map in the other chart.
+    # Each usually follows the other at once.
+    ev = ["  768 = E \"section Chorus\"", "  768 = E \"lyric Yeah\"", "  768 = E \"crowd_clap\"", "  1152 = E \"section Outro\""]
+    tr = ["  768 = N 2 0", "  768 = E solo", "  768 = S 2 96", "  960 = N 3 0", "  1152 = N 1 0", "  1152 = E soloend"]
+    maps = [["  0 = TS 4", "  0 = B 60000", "  384 = B 120000", "  768 = TS 3", "  1152 = B 90000"],
+            ["  0 = TS 4", "  0 = B 80000", "  768 = TS 3"],
+            ["  0 = TS 4", "  0 = B 48000", "  192 = B 96000", "  576 = B 120000", "  768 = TS 3", "  768 = B 80000"]]
+    first = len(texts)
+    for k_, sy in enumerate(maps):
+        texts.append({"text": gen.render_sections([("Song", ["  Resolution = 192"]), ("SyncTrack", sy), ("Events", ev), ("ExpertSingle", tr)]),
+                      "want": None, "res": 192, "kind": "valid", "follow": first + (k_ + 1) % len(maps), "coinciding": True})
     # charts that fail LATE — in the instrument stage, after tempo map, events and at least one whole track were built — each
     # followed (usually at once, same thread) by a sibling with the same ticks under other tempi: whatever the aborted parse left
     # half-done must not reach the next one
@@ -438,7 +452,7 @@ def history(rec, rng, texts, base, steps):
             i = prev
         elif prev is not None and texts[prev].get("follow") is not None and r < 0.8:
             i = texts[prev]["follow"]
-            rec.cls("history:late_failure_then_sibling_with_other_tempi")
+            rec.cls("history:equal_looking_events_under_other_tempo_maps" if texts[prev].get("coinciding") else "history:late_failure_then_sibling_with_other_tempi")
         else:
             i = rng.randrange(len(texts))
         seq.append(i)
